@@ -4,7 +4,7 @@ sys.path.insert(0, os.path.dirname(os.path.abspath(__file__)))
 import props
 what = sys.argv[1]
 seen = []
-for pid, cfg in sorted(props.PROPS.items()):
+for pid, cfg in sorted(props.PROPS.load_all().items()):
     for x in cfg.get(what, []):
         if x not in seen: seen.append(x)
 print(" ".join(seen))
